@@ -93,7 +93,7 @@ func main() {
 func runReplay(f lib.Flags, res *lib.Result, pool *DrvPool, v Variant) {
 	raw, err := os.ReadFile(f.Replay)
 	if err != nil {
-		res.Note("replay: %v", err)
+		res.Fatalf("replay: %v", err)
 		return
 	}
 	var file struct {
@@ -113,7 +113,7 @@ func runReplay(f lib.Flags, res *lib.Result, pool *DrvPool, v Variant) {
 			sc.Ops = append(sc.Ops, Op{Kind: "query", Q: withQ.Query})
 		}
 	} else if err := json.Unmarshal(file.Replay, &sc); err != nil {
-		res.Note("replay: cannot parse: %v", err)
+		res.Fatalf("replay: cannot parse: %v", err)
 		return
 	}
 	r := lib.NewRNG(f.Seed)
